@@ -1,17 +1,18 @@
 // Package c12: total on untrusted input - an error, never a panic or a hang
 // (property C12).  Streams:
-//   (i)   EXHAUSTIVE removal of optional members of valid artefacts (credential with
-//         BJJ proof / SMT proof incl. the resolver answers it is verified against,
-//         revocation status answer, DID document, gist proof): all 2^k subsets of a
-//         list of k <= 12 members, all singletons and pairs of ALL members; the same
-//         subsets are evaluated in the Coq skeletons (coq/Total/Model.v);
-//   (ii)  crafted gob streams into MerklizerFromBytes / RDFEntry.UnmarshalBinary
-//         (child process, RLIMIT_AS, allocation accounting);
-//   (iii) documents with reference cycles, shared nodes, empty strings, deep nesting,
-//         huge numbers into MerklizeJSONLD (child process);
-//   (iv)  structure-aware mutation of valid JSON artefacts into the decoders,
-//         VerifyProof and ValidateCredentialStatus; (datatype, value) pairs of every
-//         Go kind into HashValue.
+//
+//	(i)   EXHAUSTIVE removal of optional members of valid artefacts (credential with
+//	      BJJ proof / SMT proof incl. the resolver answers it is verified against,
+//	      revocation status answer, DID document, gist proof): all 2^k subsets of a
+//	      list of k <= 12 members, all singletons and pairs of ALL members; the same
+//	      subsets are evaluated in the Coq skeletons (coq/Total/Model.v);
+//	(ii)  crafted gob streams into MerklizerFromBytes / RDFEntry.UnmarshalBinary
+//	      (child process, RLIMIT_AS, allocation accounting);
+//	(iii) documents with reference cycles, shared nodes, empty strings, deep nesting,
+//	      huge numbers into MerklizeJSONLD (child process);
+//	(iv)  structure-aware mutation of valid JSON artefacts into the decoders,
+//	      VerifyProof and ValidateCredentialStatus; (datatype, value) pairs of every
+//	      Go kind into HashValue.
 package c12
 
 import (
